@@ -357,19 +357,26 @@ def rule_r1(facts, rep, rid="C01-R1"):
                 want_ids = set(lid for lid, pos in slot_of.items() if pos == src)
                 used = set()
                 if fe:
-                    seen_l = set()
-                    stack = [fe[0]]
-                    while stack:
-                        ex = stack.pop()
-                        for y in fb.walk(ex):
-                            if y.get("k") == "path" and y.get("res") == "local":
-                                if y["id"] in slot_of:
-                                    used.add(y["id"])
-                                elif y["id"] not in seen_l:
-                                    seen_l.add(y["id"])
-                                    b_ = c.binds.get(y["id"])
-                                    if b_ and b_[0] == "expr":
-                                        stack.append(b_[1])
+                    # value provenance: which payload bindings can the field's value come from (match guards and other control
+                    # dependences do not count: `match url.strip_suffix(..) { Some(s) if piped => s, _ => url }` is still fed by `url`)
+                    pv = c.vprov(fe[0])
+                    poss = set(a[1] for a in pv if a[0] == "patpos")
+                    used = set(lid for lid, pos in slot_of.items() if pos in poss)
+                    if not used:
+                        # the value goes through a conversion fn (`to_link_type(link_type)`): fall back to the payload bindings mentioned
+                        seen_l = set()
+                        stack = [fe[0]]
+                        while stack:
+                            ex = stack.pop()
+                            for y in fb.walk(ex):
+                                if y.get("k") == "path" and y.get("res") == "local":
+                                    if y["id"] in slot_of:
+                                        used.add(y["id"])
+                                    elif y["id"] not in seen_l:
+                                        seen_l.add(y["id"])
+                                        b_ = c.binds.get(y["id"])
+                                        if b_ and b_[0] == "expr":
+                                            stack.append(b_[1])
                 if want_ids and used == want_ids:
                     rep.ok(rid, key, "%s.%s is derived from the tag's %s" % (fb.last_seg(st), field, src), loc(f, lits[0]))
                 else:
